@@ -68,6 +68,15 @@ def gen_parse():
     tables = [ast.unparse(st.value) for st in ast.walk(mod) if isinstance(st, ast.Assign) and ast.unparse(st.targets[0]) == "_TABLES"]
     if reparses and tables != ["('conv_layers', 'pooling_layers', 'linear_layers', 'linear_in_dims', 'layer_order', 'num_classes', 'input_shape')"]:
         _fail("_TABLES is not the list of attributes _parse_model resets: " + repr(tables))
+    # which tables forward() works with (Model/Handle.v): those of the last parse of this object, or those installed with the library
+    cbody = _flat(ast.unparse(_method(mod, "CompiledLogicNet", "compile")))
+    if reparses and "lib = ctypes.cdll.LoadLibrary(lib_file.name)\nfor name, value in tables.items():\nsetattr(self, name, value)\nself._setup_library_function(lib)" in cbody \
+            and "code, tables = self._translate()" in cbody:
+        tables_disc = "TablesWithLibrary"
+    elif "self._parse_model(verbose=False)" in body_of("get_c_code") or "self._parse_model(verbose=False)" in body_of("compile"):
+        tables_disc = "TablesOnParse"
+    else:
+        _fail("cannot tell which layer tables forward() uses after get_c_code() / compile()")
     handled = []
     else_kind = None
     flatten_default_only = False
@@ -114,8 +123,9 @@ def gen_parse():
         vsrc = _flat(ast.unparse(v))
     except Exception:
         vsrc = ""
-    out = HEADER + "From Coq Require Import String List Bool.\nImport ListNotations.\nLocal Open Scope string_scope.\n\n"
+    out = HEADER + "From Coq Require Import String List Bool.\nFrom TLX Require Import Model.Handle.\nImport ListNotations.\nLocal Open Scope string_scope.\n\n"
     out += "Inductive else_kind := ElseRaise | ElseSkip.\n"
+    out += f"Definition tables_discipline_src : tables_discipline := {tables_disc}.\n"
     out += "Definition parse_handled : list (string * string) :=\n  [" + "; ".join(f'("{c}", "{a}")' for c, a in handled) + "].\n"
     out += f"Definition parse_else : else_kind := {else_kind}.\n"
     out += f"Definition flatten_default_only : bool := {'true' if flatten_default_only else 'false'}.\n"
